@@ -4,6 +4,8 @@
 From Coq Require Import List NArith Bool.
 From MV Require Import Lib.HBits Gen.H2Src Model.Hpack Model.H2Frame
   Proofs.HpackInt Proofs.HpackString Proofs.HpackTotal Proofs.H2FrameStable.
+(* the comparison functions of the correspondence shards are built together with this file *)
+From MV Require Model.HpackCases Model.H2FrameCases.
 Import ListNotations.
 Open Scope N_scope.
 
